@@ -9,6 +9,7 @@ KeyboardInterrupt inside a raw write (optionally a second one inside the retry
 save).  Oracle: trial ledger + last-completed-save model (DESIGN.md section 4).
 """
 import copy
+import gc
 import gzip
 import json
 import os
@@ -442,9 +443,19 @@ class Exec:
         seams.install_clock(sim.clock)
         self.ledger.install()
         bsm.BatchSimulation.__init__ = cap_init
+        # Garbage collection is a seam too: an unclosed GzipFile (interrupt
+        # between gzip.open() and the `with` entry) sits in a reference
+        # cycle and is finalised - flushing its buffer into the file - only
+        # when the cyclic collector happens to run.  The collector is
+        # switched off during the run and invoked at the end of every
+        # incarnation, which is when a real process would run finalisers.
+        gc_was = gc.isenabled()
+        gc.disable()
         try:
             self._run_steps(captured)
         finally:
+            if gc_was:
+                gc.enable()
             bsm.BatchSimulation.__init__ = real_init
             self.ledger.uninstall()
             seams.uninstall_clock()
@@ -518,6 +529,19 @@ class Exec:
             self.sim_seconds += sim.clock.now() - t_start
             if inc.batch is None and captured:
                 inc.batch = captured[-1]
+            # process exit: finalisers of whatever the incarnation left
+            # unclosed run now (a dead process's writes are swallowed)
+            n_before = proc.n_io
+            try:
+                # generation 0 holds everything allocated since the last
+                # collection (automatic collection is off), which is all an
+                # incarnation can have left behind; a full collection of
+                # the pandas / matplotlib heap would cost ~100 ms per call
+                gc.collect(0)
+            except BaseException:   # noqa  (SimKill from a dead handle)
+                pass
+            if proc.n_io != n_before:
+                sim.probe('finaliser_wrote_at_exit')
             inc.killed = proc.dead
             fired = bool(proc.fired)
             if proc.dead and proc.trace:
